@@ -27,6 +27,8 @@ structure PreFacts (assignments : AMap Ex) (known : List String) (g0 : GBuild) (
   wf : st.graph.WF
   nodes : ∀ n ∈ g0.nodes, n ∈ st.graph.nodes
   edges : ∀ e ∈ st.graph.edges, e ∈ g0.edges ∨ ∃ f, (e.2, f) ∈ st.info.byOutput ∧ e.1 ∈ inNames f
+  /-- the components without an output are kept in the order of the table -/
+  noOutSub : st.info.noOutput.Sublist done
 
 theorem PreFacts.mono {assignments known g0 done st} (h : PreFacts assignments known g0 done st) (f : FixedFunction) :
     PreFacts assignments known g0 (done ++ [f]) st where
@@ -36,6 +38,7 @@ theorem PreFacts.mono {assignments known g0 done st} (h : PreFacts assignments k
   wf := h.wf
   nodes := h.nodes
   edges := h.edges
+  noOutSub := h.noOutSub.trans (List.sublist_append_left _ _)
 
 theorem addDeps_nil_known (target : String) (srcs : List String) (g : GBuild) :
     srcs.foldl (fun g n => g.insert n target) g = addDeps [] target srcs g := by
@@ -86,7 +89,8 @@ theorem preprocessOne_facts (g0 : GBuild) (done : List FixedFunction) (st : PreS
             rcases List.mem_append.mp hg with h | h
             · exact hb.noOut g h
             · simp at h; subst h
-              exact ⟨List.mem_append_right _ List.mem_cons_self, hout, hall⟩ }
+              exact ⟨List.mem_append_right _ List.mem_cons_self, hout, hall⟩
+          noOutSub := List.Sublist.append hf.noOutSub (List.Sublist.refl _) }
       | some ow =>
         obtain ⟨out, w⟩ := ow
         simp only [hout] at hclean ⊢
@@ -110,6 +114,7 @@ theorem preprocessOne_facts (g0 : GBuild) (done : List FixedFunction) (st : PreS
           obtain ⟨a1, a2, a3⟩ := addDeps_spec [] out (f.inWires.map (·.1)) st.graph hf.wf hins' hnew
           exact {
             noOut := fun g hg => ⟨List.mem_append_left _ (hf.noOut g hg).1, (hf.noOut g hg).2⟩
+            noOutSub := hf.noOutSub.trans (List.sublist_append_left _ _)
             byKeys := AMap.keys_insert_nodup _ _ _ hf.byKeys
             byOut := by
               intro n g hg
@@ -177,7 +182,7 @@ theorem preprocessOne_facts (g0 : GBuild) (done : List FixedFunction) (st : PreS
           | nil => rfl
           | cons a l => rw [hs] at hclean; simp at hclean
         have hb := hf.mono f
-        exact ⟨h0, ⟨hb.noOut, hb.byKeys, hb.byOut, hb.wf, hb.nodes, hb.edges⟩⟩
+        exact ⟨h0, ⟨hb.noOut, hb.byKeys, hb.byOut, hb.wf, hb.nodes, hb.edges, hb.noOutSub⟩⟩
 
 theorem preprocessOne_errors_back (st : PreState) (f : FixedFunction)
     (h : (preprocessOne fl widths constants assignments known st f).errors = []) : st.errors = [] := by
